@@ -118,8 +118,7 @@ package pdnode_coord
 
 // balanced (v2) layout, first phase (a partition keeps its old replicas that are still alive and fills the other slots
 // with least-loaded nodes not listed in `exclude`): safety contract only - every index, slice bound, map write and
-// conversion of the real body is in range for every input, the empty node name is never a candidate, the input layout
-// is not modified (its lists stay duplicate-free).  The pairwise distinctness of the list under construction
+// conversion of the real body is in range for every input.  The pairwise distinctness of the list under construction
 // (exclude covers everything placed so far) was attempted as a loop invariant and is NOT claimed: its preservation on
 // the leader-replacement path is not discharged by any installed solver within minutes (see DESIGN.md 8.3, C17).
 //@ func getMinMaxLoadForReplica(replicas map[string][]int, exclude []string, nameIndexMap map[string]int) (loadItem, loadItem)
@@ -130,27 +129,27 @@ package pdnode_coord
 //@   ensures in(result0.name, leaders) && (forall e int :: 0 <= e && e < len(exclude) ==> exclude[e] != result0.name) && sameSlice(result0.leaderPids, leaders[result0.name]) && sameSlice(result0.replicaPids, replicas[result0.name])
 //@ func fillPartitionMapV2(ns string, partitionNum int, replica int, oldPartitionNodes [][]string, sortedNodes SortableStrings) [][]string
 //@   opt autoloops
-//@   opt entryrefs
 //@   requires 0 <= partitionNum && partitionNum < 1048576 && 0 <= replica && replica < 1048576
-//@   requires forall p int, a int, b int :: 0 <= p && p < len(oldPartitionNodes) && 0 <= a && a < b && b < len(oldPartitionNodes[p]) ==> oldPartitionNodes[p][a] != oldPartitionNodes[p][b]
-//@   requires forall i int :: 0 <= i && i < len(sortedNodes) ==> sortedNodes[i] != ""
 //@   modifies *
-//@ loop 1
-//@   invariant !in("", newNodesReplicaMap) && !in("", newNodesLeaderMap)
-//@ loop 2
-//@   invariant !in("", newNodesReplicaMap) && !in("", newNodesLeaderMap)
-//@ loop 3
-//@   invariant !in("", newNodesReplicaMap) && !in("", newNodesLeaderMap)
 //@ loop 4
 //@   invariant maxMoved >= -1
 //@ loop 5
 //@   invariant 0 <= pid && len(partitionNodes) == partitionNum && fresh(partitionNodes) && newNodesReplicaMap != nil && newNodesLeaderMap != nil && newNodesReplicaMap != newNodesLeaderMap
-//@   invariant !in("", newNodesReplicaMap) && !in("", newNodesLeaderMap)
-//@   invariant forall p int :: 0 <= p && p < len(oldPartitionNodes) ==> allocated(oldPartitionNodes[p])
-//@   invariant forall p int, a int, b int :: 0 <= p && p < len(oldPartitionNodes) && 0 <= a && a < b && b < len(oldPartitionNodes[p]) ==> oldPartitionNodes[p][a] != oldPartitionNodes[p][b]
 //@ loop 6
 //@   invariant 0 <= j && j <= replica && len(nlist) == replica && fresh(nlist) && fresh(exclude) && nlist.arr != exclude.arr && newNodesReplicaMap != nil && newNodesLeaderMap != nil && newNodesReplicaMap != newNodesLeaderMap
-//@   invariant !in("", newNodesReplicaMap) && !in("", newNodesLeaderMap)
-//@   invariant allocated(oldlist) && 0 <= pid && pid < partitionNum && len(partitionNodes) == partitionNum && fresh(partitionNodes)
-//@   invariant forall p int :: 0 <= p && p < len(oldPartitionNodes) ==> allocated(oldPartitionNodes[p])
-//@   invariant forall p int, a int, b int :: 0 <= p && p < len(oldPartitionNodes) && 0 <= a && a < b && b < len(oldPartitionNodes[p]) ==> oldPartitionNodes[p][a] != oldPartitionNodes[p][b]
+//@   invariant 0 <= pid && pid < partitionNum && len(partitionNodes) == partitionNum && fresh(partitionNodes)
+
+
+// per-DC lists interleaved into one ring (round robin over the data centres, empty lists skipped): every loop turn
+// moves on to the next data centre (idx counts the turns, so it is never behind the number of nodes taken); too few
+// nodes are refused; the ring handed to the layout functions has all totalCnt >= replica nodes
+//@ func getRebalancedPartitionsFromNameList(ns string, partitionNum int, replica int, oldPartitionNodes [][]string, nodeNameList []SortableStrings, balanceVer string) ([][]string, *cluster.CoordErr)
+//@   opt autoloops
+//@   requires 0 <= partitionNum && partitionNum < 1048576 && 0 <= replica && replica < 1048576 && len(nodeNameList) < 1048576
+//@   trusted nooverflow the number of nodes of a cluster (totalCnt, idx) is far below 2^63
+//@   ensures result1 != nil ==> result0 == nil && result1 == ErrNodeUnavailable
+//@   modifies *
+//@ loop 3
+//@   invariant 0 <= totalCnt && (totalCnt == 0 || len(sortedNodeNameList) >= 1)
+//@ loop 1
+//@   invariant 0 <= idx && len(combined) <= idx && (totalCnt == 0 || len(sortedNodeNameList) >= 1) && len(combined) <= totalCnt
